@@ -23,7 +23,8 @@ EXTENDS Integers, Sequences, FiniteSets, TLC, Json
 
 CONSTANTS Frames,        \* set of sequences of peer frames in flight for the channel, each over {"data", "close"}
           WithCloser,    \* BOOLEAN: the connection is closed concurrently
-          UserEnds       \* "free" : user calls Free;  "none": user keeps the channel (only peer close / conn close end it)
+          UserEnds       \* "free" : user calls Free;  "none": user keeps the channel (only peer close / conn close end it);
+                         \* "sendclose": user calls SendAndClose on the opened channel, then Free
 
 VARIABLES refs, st, closed, inMap, wqClose, chansClosed, pool, panics, stale,
           frames, upc, spc, rpc, cpc, rhold, sched, delivered, frames0
@@ -33,7 +34,7 @@ vars == <<refs, st, closed, inMap, wqClose, chansClosed, pool, panics, stale, fr
 Init ==
     /\ refs = 2 /\ st = "live" /\ closed = FALSE /\ inMap = TRUE /\ wqClose = 0 /\ chansClosed = FALSE
     /\ pool = 0 /\ panics = {} /\ stale = 0 /\ frames \in Frames
-    /\ upc = IF UserEnds = "free" THEN "acq" ELSE "done"
+    /\ upc = CASE UserEnds = "free" -> "acq" [] UserEnds = "sendclose" -> "sc.acq" [] OTHER -> "done"
     /\ spc = "idle" /\ rpc = "idle" /\ cpc = IF WithCloser THEN "begin" ELSE "done"
     /\ rhold = FALSE /\ sched = <<>> /\ delivered = 0 /\ frames0 = frames
 
@@ -87,6 +88,37 @@ URel1 ==  \* closeUser's deferred release
 URel2 ==  \* the user's own reference
     /\ upc = "rel2" /\ Log("U", "rel")
     /\ Release("U") /\ upc' = "done"
+    /\ UNCHANGED <<closed, inMap, wqClose, chansClosed, stale, frames, spc, rpc, cpc, rhold, delivered>>
+
+\* ------------------------------------------------------------------ user: SendAndClose(data) on an opened channel, then Free()
+\* acquire; load closed (closed: return); s.close(); the close frame with the payload enters the write queue; release
+USCAcq ==
+    /\ upc = "sc.acq" /\ Log("U", "acq")
+    /\ refs' = refs + 1
+    /\ IF refs + 1 = 1 \/ st = "nil"
+       THEN panics' = panics \cup {<<"U", "acquire of freed channel">>} /\ upc' = "done"
+       ELSE UNCHANGED panics /\ upc' = "sc.ldclosed"
+    /\ UNCHANGED <<st, closed, inMap, wqClose, chansClosed, pool, stale, frames, spc, rpc, cpc, rhold, delivered>>
+
+USCLdClosed ==
+    /\ upc = "sc.ldclosed" /\ Log("U", "ldclosed")
+    /\ upc' = IF closed THEN "sc.rel" ELSE "sc.setclosed"
+    /\ UNCHANGED <<refs, st, closed, inMap, wqClose, chansClosed, pool, panics, stale, frames, spc, rpc, cpc, rhold, delivered>>
+
+USCSetClosed ==
+    /\ upc = "sc.setclosed" /\ Log("U", "setclosed")
+    /\ CloseState /\ upc' = "sc.enq"
+    /\ UNCHANGED <<refs, st, inMap, wqClose, chansClosed, pool, panics, frames, spc, rpc, cpc, rhold, delivered>>
+
+USCEnq ==
+    /\ upc = "sc.enq" /\ Log("U", "enq")
+    /\ wqClose' = IF cpc \in {"begin"} \/ ~WithCloser THEN wqClose + 1 ELSE wqClose
+    /\ upc' = "sc.rel"
+    /\ UNCHANGED <<refs, st, closed, inMap, chansClosed, pool, panics, stale, frames, spc, rpc, cpc, rhold, delivered>>
+
+USCRel ==  \* SendAndClose returns; the user goes on to Free the channel
+    /\ upc = "sc.rel" /\ Log("U", "rel")
+    /\ Release("U") /\ upc' = "acq"
     /\ UNCHANGED <<closed, inMap, wqClose, chansClosed, stale, frames, spc, rpc, cpc, rhold, delivered>>
 
 \* ------------------------------------------------------------------ conn-side free(): state.Load, s.close(), release
@@ -202,7 +234,7 @@ CRel ==
     /\ cpc = "rel" /\ Log("CL", "rel") /\ Release("CL") /\ cpc' = "done"
     /\ UNCHANGED <<closed, inMap, wqClose, chansClosed, stale, frames, upc, spc, rpc, rhold, delivered>>
 
-UStep == UAcq \/ ULdClosed \/ UEnq \/ USetClosed \/ URel1 \/ URel2
+UStep == UAcq \/ ULdClosed \/ UEnq \/ USetClosed \/ URel1 \/ URel2 \/ USCAcq \/ USCLdClosed \/ USCSetClosed \/ USCEnq \/ USCRel
 SStep == SDel \/ SLoad \/ SSetClosed \/ SRel
 RStep == RGet \/ RTryAcq \/ RLdClosed \/ RRel \/ RDel \/ RCLdClosed \/ RCSetClosed \/ RCRel \/ RCLoad \/ RCFSetClosed \/ RCFRel
 CStep == CBegin("rl") \/ CBegin("sl") \/ CRange \/ CDel \/ CLoad \/ CSetClosed \/ CRel
@@ -224,12 +256,12 @@ RefsNonNegative == refs >= 0
 ReleasedOnce == pool <= 1
 \* the state is recycled only after the user gave up its reference (otherwise the user's next call panics or
 \* works on a recycled state)
-NoPrematureRelease == st = "nil" => (UserEnds = "free" /\ upc = "done")
+NoPrematureRelease == st = "nil" => (UserEnds \in {"free", "sendclose"} /\ upc = "done")
 \* when everything has run, a channel that ended is closed
-EndedClean == Quiescent /\ (UserEnds = "free" \/ WithCloser) /\ panics = {} => closed
+EndedClean == Quiescent /\ (UserEnds \in {"free", "sendclose"} \/ WithCloser) /\ panics = {} => closed
 
 Record == [sched |-> sched, panics |-> {p[2] : p \in panics}, frames |-> frames0, frames_left |-> Len(frames), delivered |-> delivered,
-           premature |-> (st = "nil" /\ ~(UserEnds = "free" /\ upc = "done")),
+           premature |-> (st = "nil" /\ ~(UserEnds \in {"free", "sendclose"} /\ upc = "done")),
            refs |-> refs, released |-> pool, closed |-> closed, user |-> UserEnds, closer |-> WithCloser]
 Emit == Quiescent => PrintT(ToJson(Record))
 =============================================================================
